@@ -99,17 +99,14 @@ def same_state(W, S, S2, label):
         [n for n in names_b if n not in names_a][:3]))
     if names_a != names_b:
         return False
+    from .sampler_steps import require_same
     ok = True
     for (n, x), (_, y) in zip(a, b):
-        if isinstance(x, (tuple, str, bool)) or x is None or \
-                isinstance(y, (tuple, str, bool)) or y is None:
-            good = (x == y)
-        elif W.symbolic:
-            good = ident(W, x, y)
+        if isinstance(x, bool) or isinstance(y, bool):
+            r = W.require(x == y, label, n)
         else:
-            good = W.same(x, y)
-        r = W.require(bool(good), label, n)
-        ok = ok and bool(good)
+            r = require_same(W, x, y, label, n)
+        ok = ok and bool(r)
     return ok
 
 
